@@ -368,6 +368,7 @@ static rt::Verdict eval_case(const Case &c, const rt::Args &) {
 }
 
 // ---------------- generators ----------------
+#ifndef FUZZ_TARGET
 static rc::Gen<Op> gen_op(int kind) {
     using namespace rc;
     auto small = [](int n) { return gen::resize(100, gen::inRange<long>(0, n)); };
@@ -472,3 +473,27 @@ int main(int argc, char **argv) {
     E.exhaustive = exhaustive;
     return rcm::run(argc, argv, E);
 }
+#endif // !FUZZ_TARGET
+
+#ifdef FUZZ_TARGET
+#include <fuzzer/FuzzedDataProvider.h>
+extern "C" int LLVMFuzzerTestOneInput(const uint8_t *data, size_t size) {
+    FuzzedDataProvider fdp(data, size);
+    Case c; c.kind = fdp.ConsumeIntegralInRange<int>(0, 2); c.dtor = fdp.ConsumeBool(); c.cmp = fdp.ConsumeBool();
+    while (fdp.remaining_bytes() > 0 && c.ops.size() < 100) {
+        Op o; o.code = fdp.ConsumeIntegralInRange<int>(0, NCODES - 1);
+        switch (o.code) {
+        case REMOVE: case FIND: o.a = {fdp.ConsumeIntegralInRange<long>(-3, 12)}; break;
+        case ITERATE: o.a = {fdp.ConsumeIntegralInRange<long>(0, 2), fdp.ConsumeIntegralInRange<long>(0, 8)}; break;
+        case ITRP: o.a = {fdp.ConsumeIntegralInRange<long>(0, 2), fdp.ConsumeIntegralInRange<long>(0, 4)}; break;
+        case ITR: { int n = fdp.ConsumeIntegralInRange<int>(0, 12); for (int i = 0; i < n; i++) o.a.push_back(fdp.ConsumeIntegralInRange<long>(0, 5)); break; }
+        default: break;
+        }
+        c.ops.push_back(o);
+    }
+    rt::Args a;
+    rt::Verdict v = eval_case(c, a);
+    fuzz_account(to_text(c), v);
+    return 0;
+}
+#endif
